@@ -111,28 +111,214 @@ def inventory(repo, eff):
     return inv
 
 
-def memo_exempt(ev) -> bool:
-    """`TABLE[key] = value` inside a function is a sound memo when the key is made of plain parameter names and EVERY parameter
-    the function reads (self / cls included — they stand for state) is part of the key: then whatever the function computes is
-    a function of the key.  Anything else (a key computed by a call such as x.tobytes(), a parameter left out of the key) is
-    reported."""
+_KEY_CONVERTERS = {"ba2int", "int", "tuple", "bytes", "str", "frozenset", "bytearray", "repr", "bool", "float", "frozenbitarray", "ba2hex"}
+_KEY_WHOLE_METHODS = {"tobytes", "tolist", "to01", "hex", "copy", "__copy__"}
+
+
+def _dotted(e):
+    parts = []
+    while isinstance(e, ast.Attribute):
+        parts.append(e.attr)
+        e = e.value
+    if isinstance(e, ast.Name):
+        return ".".join([e.id] + parts[::-1])
+    return None
+
+
+def memo_exempt(ev, repo=None) -> bool:
+    """`TABLE[key] = value` inside a function is a sound memo when the key DETERMINES the value: every input the stored value is
+    computed from (backward slice over the function's local definitions, in-place updates and the loops / alternatives that
+    select among them) is a variable the key preserves — the key is that variable, a tuple containing it, or a whole-value
+    conversion of it (ba2int(x), tuple(x), x.tobytes(), x.tolist(), ...), possibly through single-assignment locals.  A
+    parameter (self / cls included — they stand for state) or attribute the value depends on and the key does not preserve
+    (a width-only key for a (width, polynomial) table; a word-only key for a per-class verdict) is reported.  A `cls` that can
+    only be one class (no subclass in the library) is a constant."""
     n = ev.node
     if not (isinstance(n, ast.Assign) and len(n.targets) == 1 and isinstance(n.targets[0], ast.Subscript)):
         return False
-    tgt = n.targets[0]
-    if any(isinstance(x, (ast.Call, ast.Attribute, ast.Subscript)) for x in ast.walk(tgt.slice)):
-        return False
-    key = {x.id for x in ast.walk(tgt.slice) if isinstance(x, ast.Name)}
     fn = ev.fi.node
-    params = {p.arg for p in fn.args.posonlyargs + fn.args.args + fn.args.kwonlyargs}
-    if fn.args.vararg or fn.args.kwarg or not key or not key <= params:
+    a = fn.args
+    params = {p.arg for p in a.posonlyargs + a.args + a.kwonlyargs} | ({a.vararg.arg} if a.vararg else set()) | ({a.kwarg.arg} if a.kwarg else set())
+    defs, muts, attr_stores = {}, {}, set()
+
+    def root_name(t):
+        while isinstance(t, (ast.Attribute, ast.Subscript, ast.Starred)):
+            t = t.value
+        return t.id if isinstance(t, ast.Name) else None
+
+    def add_target(t, exprs, ctl):
+        if isinstance(t, ast.Name):
+            defs.setdefault(t.id, []).append((exprs, ctl))
+        elif isinstance(t, (ast.Tuple, ast.List)):
+            for e in t.elts:
+                add_target(e, exprs, ctl)
+        elif isinstance(t, ast.Starred):
+            add_target(t.value, exprs, ctl)
+        else:
+            r = root_name(t)
+            if isinstance(t, ast.Attribute) and _dotted(t):
+                attr_stores.add(_dotted(t))
+            if r is not None:
+                extra = [t.slice] if isinstance(t, ast.Subscript) else []
+                muts.setdefault(r, []).append((exprs + extra, ctl))
+
+    def walk(stmts, loops, ifs):
+        for st in stmts:
+            ctl = (tuple(loops), tuple(ifs))
+            if isinstance(st, (ast.FunctionDef, ast.AsyncFunctionDef, ast.ClassDef)):
+                defs.setdefault(st.name, []).append(([], ctl))
+                continue
+            if isinstance(st, ast.Assign):
+                if st is not n:
+                    for t in st.targets:
+                        add_target(t, [st.value], ctl)
+            elif isinstance(st, ast.AnnAssign):
+                if st.value is not None:
+                    add_target(st.target, [st.value], ctl)
+            elif isinstance(st, ast.AugAssign):
+                add_target(st.target, [st.value, st.target], ctl)
+                r = root_name(st.target)
+                if r is not None:
+                    muts.setdefault(r, []).append(([st.value], ctl))
+            elif isinstance(st, (ast.For, ast.AsyncFor)):
+                add_target(st.target, [st.iter], ctl)
+                walk(st.body, loops + [st.iter], ifs)
+                walk(st.orelse, loops, ifs)
+                continue
+            elif isinstance(st, ast.While):
+                walk(st.body, loops + [st.test], ifs)
+                walk(st.orelse, loops, ifs)
+                continue
+            elif isinstance(st, ast.If):
+                walk(st.body, loops, ifs + [st.test])
+                walk(st.orelse, loops, ifs + [st.test])
+                continue
+            elif isinstance(st, (ast.With, ast.AsyncWith)):
+                for it in st.items:
+                    if it.optional_vars is not None:
+                        add_target(it.optional_vars, [it.context_expr], ctl)
+                walk(st.body, loops, ifs)
+                continue
+            elif isinstance(st, ast.Try):
+                walk(st.body, loops, ifs)
+                for h in st.handlers:
+                    if h.name:
+                        defs.setdefault(h.name, []).append(([], ctl))
+                    walk(h.body, loops, ifs + [ast.Constant(value=None)])
+                walk(st.orelse, loops, ifs)
+                walk(st.finalbody, loops, ifs)
+                continue
+            elif isinstance(st, ast.Expr) and isinstance(st.value, ast.Call):
+                c = st.value
+                argx = list(c.args) + [k.value for k in c.keywords]
+                if isinstance(c.func, ast.Attribute):
+                    r = root_name(c.func.value)
+                    if r is not None:
+                        muts.setdefault(r, []).append((argx, ctl))
+                for x in argx:           # an object handed to a call may be updated in place by it
+                    r = root_name(x)
+                    if r is not None:
+                        muts.setdefault(r, []).append(([c.func] + [y for y in argx if y is not x], ctl))
+            for sub in ast.walk(st):
+                if isinstance(sub, ast.NamedExpr):
+                    add_target(sub.target, [sub.value], ctl)
+    walk(fn.body, [], [])
+
+    def stable(name):
+        return not muts.get(name) and (len(defs.get(name, [])) == 0 if name in params else len(defs.get(name, [])) == 1)
+
+    def preserved(e, depth=0):
+        if depth > 8:
+            return set()
+        if isinstance(e, ast.Name):
+            if not stable(e.id):
+                return set()
+            out = {e.id}
+            if e.id not in params:
+                out |= preserved(defs[e.id][0][0][0], depth + 1) if defs[e.id][0][0] else set()
+            return out
+        if isinstance(e, (ast.Tuple, ast.List)):
+            out = set()
+            for x in e.elts:
+                out |= preserved(x, depth + 1)
+            return out
+        if isinstance(e, ast.Call):
+            f = e.func
+            if isinstance(f, ast.Name) and f.id in _KEY_CONVERTERS and len(e.args) == 1:
+                return preserved(e.args[0], depth + 1)
+            if isinstance(f, ast.Attribute) and f.attr in _KEY_WHOLE_METHODS and not e.args:
+                return preserved(f.value, depth + 1)
+            return set()
+        if isinstance(e, ast.Attribute):
+            d = _dotted(e)
+            return {d} if d and d not in attr_stores and not any(d.startswith(x + ".") or x.startswith(d + ".") for x in attr_stores) else set()
+        return set()
+
+    keep = preserved(n.targets[0].slice)
+    if not keep:
         return False
-    rebound = {t.id for a in ast.walk(fn) if isinstance(a, (ast.Assign, ast.AugAssign, ast.AnnAssign, ast.For, ast.NamedExpr))
-               for t in ast.walk(a.targets[0] if isinstance(a, ast.Assign) else a.target) if isinstance(t, ast.Name) and isinstance(t.ctx, ast.Store)}
-    if key & rebound:
-        return False
-    used = {x.id for x in ast.walk(fn) if isinstance(x, ast.Name) and isinstance(x.ctx, ast.Load) and x.id in params}
-    return used <= key
+    const_cls = False
+    if repo is not None and ev.fi.cls is not None and ev.fi.kind == "classmethod" and a.args:
+        const_cls = not any(ev.fi.cls in repo.mro(c) and c is not ev.fi.cls for c in repo.all_classes())
+    seen = set()
+
+    def name_leaves(x):
+        if x in seen:
+            return set()
+        seen.add(x)
+        out = set()
+        items = defs.get(x, []) + muts.get(x, [])
+        many = len(defs.get(x, [])) > 1
+        for exprs, (loops, ifs) in items:
+            for e in exprs:
+                out |= leaves(e, frozenset())
+            for e in loops:
+                out |= leaves(e, frozenset())
+            if many:
+                for e in ifs:
+                    out |= leaves(e, frozenset())
+        return out
+
+    def leaves(e, bound):
+        if e is None or isinstance(e, ast.Constant):
+            return set()
+        if isinstance(e, ast.Name):
+            if e.id in bound or e.id in keep:
+                return set()
+            if e.id in params:
+                if const_cls and e.id == a.args[0].arg:
+                    return set()
+                return {e.id} | (name_leaves(e.id) if (defs.get(e.id) or muts.get(e.id)) else set())
+            if e.id in defs or e.id in muts:
+                return name_leaves(e.id)
+            return set()
+        if isinstance(e, ast.Attribute):
+            d = _dotted(e)
+            if d is not None and d in keep:
+                return set()
+            return leaves(e.value, bound)
+        if isinstance(e, (ast.ListComp, ast.SetComp, ast.GeneratorExp, ast.DictComp)):
+            b2 = set(bound)
+            out = set()
+            for g in e.generators:
+                out |= leaves(g.iter, frozenset(b2))
+                b2 |= {x.id for x in ast.walk(g.target) if isinstance(x, ast.Name)}
+                for c in g.ifs:
+                    out |= leaves(c, frozenset(b2))
+            for part in ([e.key, e.value] if isinstance(e, ast.DictComp) else [e.elt]):
+                out |= leaves(part, frozenset(b2))
+            return out
+        if isinstance(e, ast.Lambda):
+            la = e.args
+            b2 = set(bound) | {p.arg for p in la.posonlyargs + la.args + la.kwonlyargs}
+            return leaves(e.body, frozenset(b2))
+        out = set()
+        for c in ast.iter_child_nodes(e):
+            if isinstance(c, (ast.expr, ast.keyword)):
+                out |= leaves(c.value if isinstance(c, ast.keyword) else c, bound)
+        return out
+
+    return not leaves(n.value, frozenset())
 
 
 def crc_reset_rule(ctx, repo, eff):
@@ -305,7 +491,7 @@ def shared_rules(ctx, repo, eff):
         evs = sorted(by_origin.get(origin, []), key=repr)
         left, notes = [], []
         for ev in evs:
-            if memo_exempt(ev):
+            if memo_exempt(ev, repo):
                 notes.append(f"memo store at {ev.fi.qualname}:{ev.line} (the key determines the value)")
                 continue
             # only the register's own state, written by the register's own methods, is covered by the re-initialisation proof
@@ -530,5 +716,10 @@ def positive_controls(ctx):
         ctx.ob("engine/positive-controls", f"probe.py {fn} (pure twin)", not evs, "silent" if not evs else f"false report: {evs[0]}", "")
     good = [e for e in peff.events.values() if e.fi.name == "good" and e.origin[0] == "S"]
     ctx.ob("engine/positive-controls", "probe.py Memo.good (memo whose key determines the value)", bool(good) and all(memo_exempt(e) for e in good), "exempted" if good else "store not seen", "")
+    for fn, want in (("good_derived", True), ("bad_partial_key", False), ("bad_lossy_key", False)):
+        evs = [e for e in peff.events.values() if e.fi.name == fn and e.origin[0] == "S"]
+        got = bool(evs) and all(memo_exempt(e, prepo) for e in evs)
+        ctx.ob("engine/positive-controls", f"probe.py Memo.{fn} (memo rule: {'exempt' if want else 'reported'})", bool(evs) and got == want,
+               ("as expected" if got == want else "the memo rule gave the wrong answer") if evs else "store not seen", "")
     if n < 9:
         raise AnalysisError("probe markers missing")
